@@ -323,3 +323,236 @@ theorem swapσ_ctx (σ : Store) (R : List Nat) (old new : Ast) (f : Nat)
   · rw [h3F, hσ1]; exact hpar.2
 
 end Pfst.Links
+
+/-! ## `_set_field` at any position -/
+namespace Pfst.Links
+
+theorem ids_setFld (t : Ast) (fl : Option Fld) : ids (t.setFld fl) = ids t := by
+  cases t; simp [Ast.setFld, ids]
+
+theorem idsList_relabel (name : String) (isList : Bool) : ∀ (l : List Ast) (i : Nat),
+    idsList (relabel name isList i l) = idsList l
+  | [], _ => rfl
+  | k :: rest, i => by simp only [relabel, idsList, ids_setFld, idsList_relabel name isList rest (i + 1)]
+
+theorem idsList_filter_sub (p : Ast → Bool) : ∀ (l : List Ast), ∀ y ∈ idsList (l.filter p), y ∈ idsList l
+  | [], y, hy => by simp [idsList] at hy
+  | k :: rest, y, hy => by
+    simp only [List.filter] at hy
+    simp only [idsList, List.mem_append]
+    cases hp : p k with
+    | true =>
+      simp only [hp, idsList, List.mem_append] at hy
+      exact hy.imp id (idsList_filter_sub p rest y)
+    | false =>
+      simp only [hp] at hy
+      exact Or.inr (idsList_filter_sub p rest y hy)
+
+/-- under `Nodup`, the two halves of a partition of a child list share no AST -/
+theorem idsList_filter_disjoint (p : Ast → Bool) : ∀ (l : List Ast), (idsList l).Nodup →
+    ∀ y ∈ idsList (l.filter (fun c => !p c)), y ∉ idsList (l.filter p)
+  | [], _, y, hy => by simp [idsList] at hy
+  | k :: rest, hnd, y, hy => by
+    simp only [idsList] at hnd
+    have hnd' := List.nodup_append.mp hnd
+    simp only [List.filter] at hy ⊢
+    cases hp : p k with
+    | true =>
+      simp only [hp, Bool.not_true, idsList, List.mem_append, not_or] at hy ⊢
+      have hyr := idsList_filter_sub _ rest y hy
+      exact ⟨fun h => hnd'.2.2 y h y hyr rfl, idsList_filter_disjoint p rest hnd'.2.1 y hy⟩
+    | false =>
+      simp only [hp, Bool.not_false, idsList, List.mem_append] at hy ⊢
+      cases hy with
+      | inl h => exact fun h2 => hnd'.2.2 y h y (idsList_filter_sub _ rest y h2) rfl
+      | inr h => exact idsList_filter_disjoint p rest hnd'.2.1 y h
+
+theorem linkedListB_append (σ : Store) (pf : Option Nat) : ∀ (l1 l2 : List Ast),
+    linkedListB σ pf (l1 ++ l2) = (linkedListB σ pf l1 && linkedListB σ pf l2)
+  | [], l2 => by simp [linkedListB]
+  | k :: rest, l2 => by simp only [List.cons_append, linkedListB, linkedListB_append σ pf rest l2, Bool.and_assoc]
+
+theorem linkedListB_filter (σ : Store) (pf : Option Nat) (p : Ast → Bool) : ∀ (l : List Ast),
+    linkedListB σ pf l = true → linkedListB σ pf (l.filter p) = true
+  | [], _ => by simp [linkedListB]
+  | k :: rest, h => by
+    simp only [linkedListB, Bool.and_eq_true] at h
+    simp only [List.filter]
+    cases hp : p k with
+    | true => simp only [linkedListB, Bool.and_eq_true]; exact ⟨h.1, linkedListB_filter σ pf p rest h.2⟩
+    | false => exact linkedListB_filter σ pf p rest h.2
+
+mutual
+theorem setKids_notin : ∀ (T : Ast) (i : Nat) (name : String) (new : List Ast), i ∉ ids T → setKids i name new T = T
+  | .mk j k f ks, i, name, new, h => by
+    simp only [ids, List.mem_cons, not_or] at h
+    simp only [setKids, if_neg (fun e : j = i => h.1 e.symm), setKidsList_notin ks i name new h.2]
+theorem setKidsList_notin : ∀ (l : List Ast) (i : Nat) (name : String) (new : List Ast), i ∉ idsList l →
+    setKidsList i name new l = l
+  | [], _, _, _, _ => rfl
+  | k :: rest, i, name, new, h => by
+    simp only [idsList, List.mem_append, not_or] at h
+    simp only [setKidsList, setKids_notin k i name new h.1, setKidsList_notin rest i name new h.2]
+end
+
+theorem setKids_id (T : Ast) (i : Nat) (name : String) (new : List Ast) : (setKids i name new T).id = T.id := by
+  obtain ⟨j, k, f, ks⟩ := T
+  simp only [setKids]
+  split <;> rfl
+
+theorem idsList_kids_sub (t : Ast) : ∀ y ∈ idsList t.kids, y ∈ ids t := by
+  obtain ⟨j, k, f, ks⟩ := t
+  intro y hy
+  simp only [Ast.kids] at hy
+  simp [ids, hy]
+
+/-- the elements of field `name` among the children of a node (`getattr(ast, field)`) -/
+def fieldOf (name : String) (t : Ast) : List Ast :=
+  t.kids.filter (fun c => match c.fld with | some g => g.name == name | none => false)
+
+/-- What `field_linked` needs to know about the store `σ3` after `_set_field` replaced the elements `body` of a field of
+the node whose FST is `f` by the fresh elements `new`. -/
+structure FieldCtx (σ σ3 : Store) (R : List Nat) (body new : List Ast) (f : Nat) : Prop where
+  back : ∀ x ∈ R, ∀ g, σ.astF x = some g → (σ.fst g).a = some x ∧ g < σ.next
+  bodyR : ∀ y ∈ idsList body, y ∈ R
+  astF_keep : ∀ x, x ∉ idsList body → x ∉ idsList new → σ3.astF x = σ.astF x
+  fst_keep : ∀ g, g < σ.next ∧ (∀ y ∈ idsList body, σ.astF y ≠ some g) → σ3.fst g = σ.fst g
+  newKids : linkedListB σ3 (some f) new = true
+
+theorem FieldCtx.keepP {σ σ3 : Store} {R : List Nat} {body new : List Ast} {f : Nat} (C : FieldCtx σ σ3 R body new f)
+    (x : Nat) (hx : x ∈ R) (hxo : x ∉ idsList body) (g : Nat) (hg : σ.astF x = some g) :
+    g < σ.next ∧ ∀ y ∈ idsList body, σ.astF y ≠ some g := by
+  have hb := C.back x hx g hg
+  refine ⟨hb.2, ?_⟩
+  intro y hy hyg
+  have hby := C.back y (C.bodyR y hy) g hyg
+  have := hb.1.symm.trans hby.1
+  injection this with h
+  exact hxo (h ▸ hy)
+
+mutual
+theorem field_linked {σ σ3 : Store} {R : List Nat} {body new : List Ast} {f : Nat}
+    (C : FieldCtx σ σ3 R body new f) (name : String) (P : Ast) (hbody : body = fieldOf name P)
+    (hPf : σ.astF P.id = some f) :
+    ∀ (T : Ast) (pf : Option Nat), linkedB σ pf T = true → (ids T).Nodup → (∀ x ∈ ids T, x ∈ R) →
+      (∀ x ∈ ids T, x ∉ idsList new) → findId P.id T = some P →
+      linkedB σ3 pf (setKids P.id name new T) = true
+  | .mk j k fl ks, pf, hl, hnd, hR, hdn, hfind => by
+    have hjR : j ∈ R := hR j (by simp [ids])
+    have hjn : j ∉ idsList new := hdn j (by simp [ids])
+    simp only [ids, List.nodup_cons] at hnd
+    by_cases e : j = P.id
+    · simp only [findId, if_pos e] at hfind
+      have hT : Ast.mk j k fl ks = P := Option.some.inj hfind
+      have hbk : body = ks.filter (fun c => match c.fld with | some g => g.name == name | none => false) := by
+        rw [hbody, ← hT]; rfl
+      have hbsub : ∀ y ∈ idsList body, y ∈ idsList ks := by
+        intro y hy; rw [hbk] at hy; exact idsList_filter_sub _ ks y hy
+      have hjo : j ∉ idsList body := fun h => hnd.1 (hbsub j h)
+      have hjf : σ.astF j = some f := by rw [e]; exact hPf
+      simp only [setKids, if_pos e]
+      simp only [linkedB, hjf, Bool.and_eq_true] at hl
+      simp only [linkedB, C.astF_keep j hjo hjn, hjf, C.fst_keep f (C.keepP j hjR hjo f hjf), Bool.and_eq_true]
+      refine ⟨hl.1, ?_⟩
+      rw [linkedListB_append, Bool.and_eq_true]
+      refine ⟨?_, C.newKids⟩
+      have hother : ∀ x ∈ idsList (ks.filter (fun c =>
+          !(match c.fld with | some g => g.name == name | none => false))), x ∉ idsList body := by
+        intro x hx; rw [hbk]
+        exact idsList_filter_disjoint (fun c => match c.fld with | some g => g.name == name | none => false) ks hnd.2 x hx
+      have hosub := idsList_filter_sub (fun c => !(match c.fld with | some g => g.name == name | none => false)) ks
+      exact linkedListB_congrP σ σ3 (fun g => g < σ.next ∧ ∀ y ∈ idsList body, σ.astF y ≠ some g) _ (some f)
+        (fun x hx => C.astF_keep x (hother x hx) (hdn x (by simp [ids, hosub x hx])))
+        (fun x hx g hg => C.keepP x (hR x (by simp [ids, hosub x hx])) (hother x hx) g hg)
+        (fun g hP => C.fst_keep g hP) (linkedListB_filter σ (some f) _ ks hl.2)
+    · simp only [findId, if_neg e] at hfind
+      simp only [setKids, if_neg e]
+      obtain ⟨_, hsub⟩ := findIdList_some ks P.id P hfind
+      have hbsub : ∀ y ∈ idsList body, y ∈ idsList ks := by
+        intro y hy; rw [hbody] at hy
+        exact hsub y (idsList_kids_sub P y (idsList_filter_sub _ _ y hy))
+      have hjo : j ∉ idsList body := fun h => hnd.1 (hbsub j h)
+      simp only [linkedB] at hl ⊢
+      rw [C.astF_keep j hjo hjn]
+      cases hg : σ.astF j with
+      | none => simp [hg] at hl
+      | some g =>
+        simp only [hg, Bool.and_eq_true] at hl ⊢
+        rw [C.fst_keep g (C.keepP j hjR hjo g hg)]
+        exact ⟨hl.1, field_linkedList C name P hbody hPf ks (some g) hl.2 hnd.2
+          (fun x hx => hR x (by simp [ids, hx])) (fun x hx => hdn x (by simp [ids, hx])) hfind⟩
+theorem field_linkedList {σ σ3 : Store} {R : List Nat} {body new : List Ast} {f : Nat}
+    (C : FieldCtx σ σ3 R body new f) (name : String) (P : Ast) (hbody : body = fieldOf name P)
+    (hPf : σ.astF P.id = some f) :
+    ∀ (l : List Ast) (pf : Option Nat), linkedListB σ pf l = true → (idsList l).Nodup → (∀ x ∈ idsList l, x ∈ R) →
+      (∀ x ∈ idsList l, x ∉ idsList new) → findIdList P.id l = some P →
+      linkedListB σ3 pf (setKidsList P.id name new l) = true
+  | [], _, _, _, _, _, h => by simp [findIdList] at h
+  | k :: rest, pf, hl, hnd, hR, hdn, hfind => by
+    simp only [linkedListB, Bool.and_eq_true] at hl
+    simp only [idsList] at hnd
+    have hnd' := List.nodup_append.mp hnd
+    simp only [setKidsList, linkedListB, Bool.and_eq_true]
+    have hbP : ∀ y ∈ idsList body, y ∈ ids P := by
+      intro y hy; rw [hbody] at hy
+      exact idsList_kids_sub P y (idsList_filter_sub _ _ y hy)
+    cases hk : findId P.id k with
+    | some r =>
+      simp only [findIdList, hk] at hfind
+      have hr : r = P := Option.some.inj hfind
+      rw [hr] at hk
+      obtain ⟨_, hsub⟩ := findId_some k P.id P hk
+      have hirest : P.id ∉ idsList rest := fun h => hnd'.2.2 P.id (hsub _ (id_mem_ids P)) P.id h rfl
+      have hxo : ∀ x ∈ idsList rest, x ∉ idsList body := fun x hx h => hnd'.2.2 x (hsub x (hbP x h)) x hx rfl
+      rw [setKidsList_notin rest _ _ _ hirest]
+      refine ⟨field_linked C name P hbody hPf k pf hl.1 hnd'.1 (fun x hx => hR x (by simp [idsList, hx]))
+        (fun x hx => hdn x (by simp [idsList, hx])) hk, ?_⟩
+      exact linkedListB_congrP σ σ3 (fun g => g < σ.next ∧ ∀ y ∈ idsList body, σ.astF y ≠ some g) rest pf
+        (fun x hx => C.astF_keep x (hxo x hx) (hdn x (by simp [idsList, hx])))
+        (fun x hx g hg => C.keepP x (hR x (by simp [idsList, hx])) (hxo x hx) g hg)
+        (fun g hP => C.fst_keep g hP) hl.2
+    | none =>
+      simp only [findIdList, hk] at hfind
+      have hik := findId_none k _ hk
+      rw [setKids_notin k _ _ _ hik]
+      obtain ⟨_, hsub⟩ := findIdList_some rest P.id P hfind
+      have hxo : ∀ x ∈ ids k, x ∉ idsList body := fun x hx h => hnd'.2.2 x hx x (hsub x (hbP x h)) rfl
+      refine ⟨?_, field_linkedList C name P hbody hPf rest pf hl.2 hnd'.2.1 (fun x hx => hR x (by simp [idsList, hx]))
+        (fun x hx => hdn x (by simp [idsList, hx])) hfind⟩
+      exact linkedB_congrP σ σ3 (fun g => g < σ.next ∧ ∀ y ∈ idsList body, σ.astF y ≠ some g) k pf
+        (fun x hx => C.astF_keep x (hxo x hx) (hdn x (by simp [idsList, hx])))
+        (fun x hx g hg => C.keepP x (hR x (by simp [idsList, hx])) (hxo x hx) g hg)
+        (fun g hP => C.fst_keep g hP) hl.1
+end
+
+/-- the store after `_set_field` (default flags) replaced the elements `body` below the FST `f` by the fresh `new` -/
+def fieldσ (σ : Store) (body : List Ast) (f : Nat) (new : List Ast) : Store :=
+  makeKids (unmakeList σ body) f new
+
+theorem newElems_eq_makeKids (f : Nat) : ∀ (l : List Ast) (σ : Store), newElems σ f false l = makeKids σ f l
+  | [], σ => by simp [newElems, makeKids]
+  | k :: rest, σ => by
+    obtain ⟨a, kind, fld, kids⟩ := k
+    simp only [newElems, makeKids, makeChild, Ast.id, Ast.fld, Ast.kids, Bool.false_eq_true, if_false,
+      newElems_eq_makeKids f rest]
+
+theorem fieldσ_ctx (σ : Store) (R : List Nat) (body new : List Ast) (f : Nat) (hF : f < σ.next)
+    (back : ∀ x ∈ R, ∀ g, σ.astF x = some g → (σ.fst g).a = some x ∧ g < σ.next)
+    (bodyR : ∀ y ∈ idsList body, y ∈ R)
+    (hnd : (idsList new).Nodup) (hfresh : ∀ x ∈ idsList new, σ.astF x = none) :
+    FieldCtx σ (fieldσ σ body f new) R body new f := by
+  have hnext : (unmakeList σ body).next = σ.next := unmakeList_next _ _
+  have h1fresh : ∀ x ∈ idsList new, (unmakeList σ body).astF x = none :=
+    fun x hx => unmakeList_keeps_none _ _ _ (hfresh x hx)
+  obtain ⟨hfr, hl⟩ := makeKids_spec new (unmakeList σ body) f (by omega) hnd h1fresh
+  refine ⟨back, bodyR, ?_, ?_, hl⟩
+  · intro x hxo hxn
+    simp only [fieldσ]
+    rw [hfr.astF_out x hxn]
+    exact unmakeList_astF_frame body σ x hxo
+  · intro g hP
+    simp only [fieldσ]
+    rw [hfr.fst_old g (by omega)]
+    exact unmakeList_fst_frame body σ g hP.2
+
+end Pfst.Links
